@@ -401,6 +401,59 @@ type genState struct {
 	snaps   []bool
 	iters   []bool
 	iterSrc []string // "db" | "b<h>" | "s<h>": Pebble requires iterators to be closed before their source
+	putKeys []string // keys written at database level so far (the generator's approximate view)
+}
+
+func (g *genState) newDBIter(ops []Op, prefix string, ub bool) ([]Op, int) {
+	g.iters = append(g.iters, true)
+	g.iterSrc = append(g.iterSrc, "db")
+	return append(ops, Op{K: "newiter", Src: "db", A: prefix, Flag: ub}), len(g.iters) - 1
+}
+
+// motif: scan the database, mutate it in ONE step through one of the write paths, scan again (and keep
+// using the first iterator): an engine that caches anything between scans (key lists, bounds, positions)
+// must invalidate it on every write path
+func (g *genState) scanMutateScan(r *hx.RNG, ops []Op) []Op {
+	var i1, i2 int
+	ops, i1 = g.newDBIter(ops, "-", false)
+	ops = append(ops, Op{K: "first", H: i1})
+	for j := r.Intn(3); j > 0; j-- {
+		ops = append(ops, Op{K: "next", H: i1})
+	}
+	k := genKey(r, 3)
+	if len(g.putKeys) > 0 && r.Chance(80) {
+		k = g.putKeys[r.Intn(len(g.putKeys))]
+	}
+	switch r.Intn(7) {
+	case 0:
+		ops = append(ops, Op{K: "delrange", A: k, B: extendKey(k)})
+	case 1:
+		ops = append(ops, Op{K: "delrange", A: "-", B: "ffffffff"})
+	case 2:
+		ops = append(ops, Op{K: "del", A: k})
+	case 3:
+		nk := genKey(r, 3)
+		g.putKeys = append(g.putKeys, nk)
+		ops = append(ops, Op{K: "put", A: nk, B: genKey(r, 2)})
+	case 4:
+		ix := r.Bool()
+		g.batches = append(g.batches, false)
+		g.indexed = append(g.indexed, ix)
+		h := len(g.batches) - 1
+		w := []string{"delrange " + k + " " + extendKey(k), "del " + k, "put " + k + " " + genKey(r, 2)}[r.Intn(3)]
+		ops = append(ops, Op{K: "newbatch", Flag: ix}, Op{K: "bw", H: h, W: w}, Op{K: "bwrite", H: h})
+	case 5:
+		ops = append(ops, Op{K: "helper", Flag: r.Bool(), Rd: "_", Ws: []string{"delrange:" + k + ":" + extendKey(k)}})
+	default:
+		ops = append(ops, Op{K: "helper", Flag: r.Bool(), Rd: "_", Ws: []string{"del:" + k, "put:" + genKey(r, 3) + ":" + genKey(r, 2)}})
+	}
+	ops, i2 = g.newDBIter(ops, "-", false)
+	ops = append(ops, Op{K: "first", H: i2})
+	for j := 1 + r.Intn(4); j > 0; j-- {
+		ops = append(ops, Op{K: "next", H: i2})
+	}
+	ops = append(ops, Op{K: "seek", H: i2, A: k}, Op{K: "next", H: i1}, Op{K: "has", A: k})
+	return ops
 }
 
 // closeItersOf emits iclose for every open iterator created on the given source
@@ -432,10 +485,16 @@ func genCase(r *hx.RNG, n int, strictBias int) []Op {
 	var g genState
 	var ops []Op
 	for len(ops) < n {
+		if r.Chance(3) {
+			ops = g.scanMutateScan(r, ops)
+			continue
+		}
 		x := r.Intn(100)
 		switch {
 		case x < 18:
-			ops = append(ops, Op{K: "put", A: genKey(r, 3), B: genKey(r, 2)})
+			nk := genKey(r, 3)
+			g.putKeys = append(g.putKeys, nk)
+			ops = append(ops, Op{K: "put", A: nk, B: genKey(r, 2)})
 		case x < 22:
 			ops = append(ops, Op{K: "del", A: genKey(r, 3)})
 		case x < 25:
